@@ -100,4 +100,44 @@ CLAIMED.update({
         technique="TLA+/PlusCal lifecycle + concurrency model checked by TLC; state-graph history walk (testdrv); TLC trace validation of recorded histories (midicatdrv under -race)",
         ref="DESIGN.md section 4 C17"),
 })
+CLAIMED.update({
+    "C11": dict(
+        text=("Tempo.tla defines the exact integral of the tempo map as an integer numerator (BigNat limbs, since TLC integers are 32 bit) and the tolerance predicate of the "
+              "property; TLC model-checks monotonicity, the segment algebra and the equal-tick rule on small maps (and BigNat against native integers). Real files with tempo maps "
+              "(raw 24-bit values, repeated ticks, >12 changes on a tick, ticks beyond 2^32) are written, read back and queried through SMF.TimeAt and TracksReader.Do; TLC "
+              "recomputes the integral exactly and judges every query, monotonicity and the Duration/Ticks inverse law."),
+        note="Trusted: TLC, Tempo/BigNat modules, harness number encoding (limbs re-checked by TLC against decimal digits), float64 bit decomposition. Horizon 2^41 us.",
+        technique="TLA+ tempo-map model with exact big-number arithmetic; TLC model check; TLC trace validation of recorded TimeAt/Do/Duration/Ticks results",
+        ref="DESIGN.md section 4 C11"),
+    "C13": dict(
+        text=("Recorder.tla composes the receiver model LiveDecoder (reused), the channel-message filter, the exact tick conversion and the SMF writer/strict parser; TLC checks on the "
+              "model that only channel messages ever enter a track and that the written file is canonical. Real recordings on the testdrv virtual clock (all stream kinds of C04/C06, "
+              "20..400 BPM, resolutions 24..15360) are judged by TLC: recorded messages = the model's channel messages, deltas within one tick of the exact conversion of the arrival "
+              "stamp differences, strict parse of the written bytes, read-back equal."),
+        note="Arrival stamps are derived by TLC from the receiver model (RecordFrom owns the listener). First delta unconstrained (unknown clock origin). Trusted: TLC, LiveDecoder/SmfParse/SmfWrite/Recorder modules, harness recording.",
+        technique="TLA+ composition model (receiver o tick conversion o SMF writer/parser) checked by TLC; TLC trace validation of recorded sessions",
+        ref="DESIGN.md section 4 C13"),
+    "C15": dict(
+        text=("Meta.tla specifies every meta constructor's encoding (FF type VLQ-length payload), the payload accessor, the key table from the circle of fifths and the 26 named keys from "
+              "music theory, time-signature denominators and the 24-bit tempo field with exact rational arithmetic; TLC model-checks the inverse laws on boundary lengths and all key/denominator "
+              "tuples. Thousands of real constructor calls (all boundary lengths to 20000, all 65536 sequence numbers, all key tuples and named constructors, dyadic tempi) with the answers of "
+              "all 19 GetMeta* accessors are judged by TLC."),
+        note="Trusted: TLC, Meta.tla, harness recording incl. float decomposition (Frexp). Accessor behaviour on foreign message types is only required to reject.",
+        technique="TLA+ codec specification checked by TLC; TLC trace validation of recorded constructor/accessor calls",
+        ref="DESIGN.md section 4 C15"),
+    "C18": dict(
+        text=("Sysex.tla specifies Roland-style build/parse/checksum and the MMC command / locate layouts; TLC model-checks parse o build = id, checksum sum = 0 mod 128, rejection of every "
+              "single-byte corruption and that anything still accepted is a built message. On the real code every (3+n+1) x 127 single-byte corruption of each generated message is parsed "
+              "(millions per run); TLC judges the built bytes, the parsed value, every accepted corruption and a 200-per-message sample; all 127 x 63 MMC pairs and boundary/random locate codes."),
+        note="Trusted: TLC, Sysex.tla, harness recording. Framing/header byte corruptions only on the model.",
+        technique="TLA+ codec specification checked by TLC; exhaustive single-byte corruption on real code; TLC trace validation",
+        ref="DESIGN.md section 4 C18"),
+    "C20": dict(
+        text=("Sequencer.tla lays bars end to end on the 32nd grid and states the export clauses (event ticks, note ends, signature changes, common end tick, SMF0 = SMF1 content); TLC model-checks "
+              "the layout and that reference/mutant exporters are accepted/rejected as they should. Random songs over the full domain (1..40 bars, 118 signatures, 8 tracks, notes across bar lines) "
+              "are exported by the real ToSMF0/ToSMF1 and judged by TLC on absolute ticks."),
+        note="Trusted: TLC, Sequencer.tla, harness delta-to-absolute-tick summation. Order of same-tick events, track mapping and note-off encoding are left free.",
+        technique="TLA+ layout specification checked by TLC; TLC trace validation of recorded exports",
+        ref="DESIGN.md section 4 C20"),
+})
 NOT_YET = {}
